@@ -78,6 +78,8 @@ func gen(tier string, r *lib.Rand, emit func(string)) {
 		emit("print " + acclib.EncScript(t))
 	}
 	emit("print -")
+	// histories: several prints / parses in one process, all results re-read at the end
+	acclib.HistCases(tier, r, emit)
 	// large sizes: long sums, deep nesting, many statements, wide alignment padding
 	for _, sh := range acclib.LargeShapes {
 		for _, n := range acclib.LargeSizes(tier) {
@@ -112,6 +114,8 @@ func nontrivial(c, res string) bool {
 	switch f[0] {
 	case "large":
 		return res == "ok"
+	case "printhist", "parsehist":
+		return strings.Count(f[1], "|") >= 1
 	case "print":
 		t := acclib.DecScript(f[1])
 		return acclib.InScope(t) && acclib.CountOps(t) >= 2
